@@ -173,19 +173,27 @@ class GMDouble:
         GMDouble.counter += 1
         return real(GMDouble.ctx, f"bic{GMDouble.counter}", lo=-100, hi=100)
 
+    contiguous = False
+
     def predict(self, data):
         GMDouble.counter += 1
         c = GMDouble.counter
-        return np.array([integer(GMDouble.ctx, f"child{c}_{i}", lo=0, hi=1).resolve(0, 1) for i in range(len(data))], dtype=int)
+        n = len(data)
+        if GMDouble.contiguous:
+            # child labels restricted to contiguous splits (first k points -> child 0): n+1 patterns instead of 2^n
+            k = integer(GMDouble.ctx, f"cut{c}", lo=0, hi=n).resolve(0, n)
+            return np.array([0] * k + [1] * (n - k), dtype=int)
+        return np.array([integer(GMDouble.ctx, f"child{c}_{i}", lo=0, hi=1).resolve(0, 1) for i in range(n)], dtype=int)
 
 
-def make_hier(n, max_iterations, normalize):
+def make_hier(n, max_iterations, normalize, contiguous=False):
     X = (np.arange(n, dtype=float).reshape(n, 1) * 0.13 + 0.1) % 1.0
     W = np.linspace(1.0, 2.0, n)
 
     def harness(ctx: PathCtx):
         GMDouble.ctx = ctx
         GMDouble.counter = 0
+        GMDouble.contiguous = contiguous
         h = HierarchicalGaussianMixture(n_init=1, max_iterations=max_iterations, min_points=None, threshold_modifier=1.0, normalize=normalize)
         with patched(cluster_mod, GaussianMixture=GMDouble):
             h.fit(X.copy(), W.copy())
@@ -209,7 +217,7 @@ def make_hier(n, max_iterations, normalize):
         return {"reproduced": True, "signature": f"hierarchical:{label}", "payload": {k: str(x) for k, x in m.items()},
                 "what": f"HierarchicalGaussianMixture.fit (inner mixture scripted: BIC values / child labels from the model) violates {label}: {v.get('detail')}"}
 
-    return Obligation(f"hier-n{n}-maxit{max_iterations}-{'norm' if normalize else 'raw'}", harness, replay=replay,
+    return Obligation(f"hier-n{n}-maxit{max_iterations}-{'norm' if normalize else 'raw'}{'-contiguous' if contiguous else ''}", harness, replay=replay,
                       encodes=[HierarchicalGaussianMixture.fit, HierarchicalGaussianMixture.predict, HierarchicalGaussianMixture.predict_proba],
                       bounds=f"{n} concrete 1-d points, max_iterations={max_iterations}, arbitrary (symbolic) BIC values and child labels of the inner mixture",
                       stubs=["GaussianMixture -> contract double (symbolic bic(), symbolic predict())"], theory="QF_LRA/LIA", max_paths=30000)
@@ -217,7 +225,7 @@ def make_hier(n, max_iterations, normalize):
 
 def obligations(tier):
     obs = [make_mstep(2, 1, 2, "full"), make_mstep(2, 2, 2, "diag"), make_mstep(2, 2, 1, "full"), make_mstep(3, 1, 1, "full"), make_replicas(1, "full"),
-           make_hier(6, 1, True), make_hier(5, 2, False)]
+           make_hier(6, 1, True), make_hier(5, 2, False), make_hier(8, 2, False, contiguous=True)]
     if tier == "thorough":
         obs += [make_mstep(3, 1, 2, "full"), make_mstep(3, 2, 1, "full"), make_mstep(3, 2, 2, "diag"), make_replicas(2, "full"), make_replicas(1, "diag"),
                 make_hier(6, 2, True), make_hier(7, 2, False)]
